@@ -242,6 +242,25 @@ Lemma nloc_nonneg : forall its, 0 <= nloc its.
 Proof. intros. unfold nloc, len. lia. Qed.
 
 (* ---- what compiling a statement list does to the bookkeeping ---- *)
+Lemma leave_for : forall b hid late tbl S S1 C r1 r2 pcb rb n1 k2 k3,
+  n1 = List.length hid -> k2 = (List.length tbl + List.length hid)%nat ->
+  k3 = (List.length tbl + List.length hid + List.length late)%nat ->
+  end_scope (seq (List.length tbl) n1 ++ seq k2 (List.length late) ++ top_idx b k3) C
+            (tbl ++ mk_ents hid S 0 r1 ++ mk_ents late S1 0 r2 ++ ents b pcb rb 0) =
+  tbl ++ mk_ents hid S C r1 ++ mk_ents late S1 C r2 ++ ents b pcb rb C.
+Proof.
+  intros b hid late tbl S S1 C r1 r2 pcb rb n1 k2 k3 E1 E2 E3. subst.
+  rewrite !end_scope_app. rewrite end_scope_seq.
+  replace (List.length tbl + List.length hid)%nat with (List.length (tbl ++ mk_ents hid S C r1))
+    by (rewrite app_length, mk_ents_length; lia).
+  rewrite (app_assoc tbl). rewrite end_scope_seq.
+  replace (List.length (tbl ++ mk_ents hid S C r1) + List.length late)%nat
+    with (List.length ((tbl ++ mk_ents hid S C r1) ++ mk_ents late S1 C r2))
+    by (rewrite !app_length, !mk_ents_length; lia).
+  rewrite (app_assoc (tbl ++ mk_ents hid S C r1)). rewrite end_scope_ents.
+  rewrite <- !app_assoc. reflexivity.
+Qed.
+
 Lemma nloc_local : forall bs r, nloc (ILocal bs r) = len bs + nloc r.
 Proof. intros. unfold nloc. cbn [decls]. apply len_app. Qed.
 
@@ -275,6 +294,652 @@ Proof.
     replace (off + n + 0) with (off + n) by lia.
     replace (pc + ninstr b + ninstr r) with (pc + (ninstr b + ninstr r)) by lia.
     reflexivity.
-  - admit.
-  - admit.
-Admitted.
+  - rewrite crun_cons. cbn [cstep c_tbl c_blocks c_regtop c_pc]. rewrite crun_app.
+    rewrite crun_parts.
+    rewrite !crun_cons. cbn [cstep c_tbl c_blocks c_regtop c_pc].
+    rewrite crun_app.
+    (* StartLocalVarsHere resets the start of the hidden variables *)
+    rewrite app_length, mk_parts_length.
+    replace (List.length tbl + List.length parts - List.length parts)%nat with (List.length tbl) by lia.
+    rewrite <- (app_nil_r (mk_parts parts pc (off + n + 0))).
+    rewrite <- (mk_parts_length parts pc (off + n + 0)) at 1.
+    rewrite start_here_map, mk_parts_restart, app_nil_r.
+    rewrite crun_regs. rewrite crun_app.
+    replace (off + n + (0 + len parts + len late)) with (off + n + 0 + (0 + len parts + len late)) by lia.
+    replace (off + n + len parts + len late) with (off + n + (0 + len parts + len late)) by lia.
+    rewrite IHb.
+    rewrite !crun_cons. cbn [cstep c_tbl c_blocks c_regtop c_pc b_off b_n b_dbg].
+    rewrite <- !app_assoc. rewrite !app_nil_l.
+    rewrite leave_for.
+    2:{ unfold for_hidden. rewrite map_length. reflexivity. }
+    2:{ rewrite app_length, mk_ents_length. reflexivity. }
+    2:{ rewrite !app_length, !mk_ents_length. lia. }
+    rewrite IHr.
+    rewrite !app_length, !mk_ents_length, ents_length.
+    replace (List.length (for_hidden parts)) with (List.length parts) by (unfold for_hidden; rewrite map_length; reflexivity).
+    rewrite <- !app_assoc.
+    replace (off + n + 0) with (off + n) by lia.
+    replace (off + n + (0 + len parts)) with (off + n + len parts) by lia.
+    replace (pc + hdr_n parts + 1 + ninstr b + 1 + ninstr r) with (pc + (hdr_n parts + 1 + ninstr b + 1 + ninstr r)) by lia.
+    replace (List.length tbl + (List.length parts + (List.length late + nents b)))%nat
+      with (List.length tbl + List.length parts + List.length late + nents b)%nat by lia.
+    reflexivity.
+  - rewrite crun_cons. cbn [cstep c_tbl c_blocks c_regtop c_pc]. rewrite crun_app.
+    replace (off + n) with (off + n + 0) at 2 by lia.
+    rewrite IHb. rewrite crun_app, crun_cpts.
+    rewrite !crun_cons. cbn [cstep c_tbl c_blocks c_regtop c_pc b_off b_n b_dbg].
+    rewrite !app_nil_l. rewrite end_scope_ents.
+    rewrite IHr. rewrite app_length, ents_length. rewrite <- !app_assoc.
+    replace (off + n + 0) with (off + n) by lia.
+    replace (pc + ninstr b + 2 * len c + 1 + ninstr r) with (pc + (ninstr b + 2 * len c + 1 + ninstr r)) by lia.
+    reflexivity.
+Qed.
+
+(* the DbgLocals table of a whole function, in closed form *)
+Definition fn_close (f : fn) : Z := ninstr (f_body f) + 1.
+Definition fn_table (f : fn) : list entry :=
+  mk_ents (fn_env0 f) 0 (fn_close f) 0 ++ ents (f_body f) 0 (len (fn_env0 f)) (fn_close f).
+
+Lemma dbg_table_eq : forall f, dbg_table f = fn_table f.
+Proof.
+  intros f. unfold dbg_table, compile_fn, cst0, fn_table, fn_close.
+  rewrite crun_app, crun_regs. rewrite crun_app.
+  replace (0 + len (fn_env0 f)) with (0 + (0 + len (fn_env0 f))) at 2 by lia.
+  rewrite crun_compile.
+  rewrite !crun_cons. cbn [cstep c_tbl c_blocks c_regtop c_pc b_off b_n b_dbg crun fold_left].
+  rewrite !app_nil_l. rewrite mk_ents_length.
+  rewrite end_scope_app.
+  rewrite <- (app_nil_l (mk_ents (fn_env0 f) 0 0 (0 + 0) ++ _)).
+  change (seq 0 (List.length (fn_env0 f))) with (seq (List.length (@nil entry)) (List.length (fn_env0 f))).
+  rewrite end_scope_seq. rewrite app_nil_l.
+  rewrite <- (mk_ents_length (fn_env0 f) 0 (0 + ninstr (f_body f) + 1) (0 + 0)).
+  rewrite end_scope_ents.
+  replace (0 + 0) with 0 by lia. replace (0 + (0 + len (fn_env0 f))) with (len (fn_env0 f)) by lia.
+  replace (0 + ninstr (f_body f) + 1) with (ninstr (f_body f) + 1) by lia.
+  reflexivity.
+Qed.
+
+(* ================= part 2: what LocalName finds in that table ================= *)
+
+Definition active (q : Z) (e : entry) : bool := (e_start e <=? q) && (q <? e_end e).
+Definition act (q : Z) (l : list entry) : list entry := filter (active q) l.
+Definition bind_of (e : entry) : binding := (e_name e, e_val e).
+
+Fixpoint zseq (a : Z) (n : nat) : list Z :=
+  match n with O => [] | S m => a :: zseq (a + 1) m end.
+
+Lemma zseq_app : forall n m a, zseq a (n + m) = zseq a n ++ zseq (a + Z.of_nat n) m.
+Proof.
+  induction n as [|n IH]; intros m a.
+  - simpl. rewrite Z.add_0_r. reflexivity.
+  - cbn [zseq Nat.add app]. rewrite IH. f_equal. f_equal. f_equal. lia.
+Qed.
+
+Fixpoint instrs (evs : list cev) : Z :=
+  match evs with
+  | [] => 0
+  | CInstr _ :: r => 1 + instrs r
+  | _ :: r => instrs r
+  end.
+
+Lemma instrs_app : forall a b, instrs (a ++ b) = instrs a + instrs b.
+Proof. induction a as [|e a IH]; intros b; [reflexivity|]. destruct e; cbn [app instrs]; rewrite IH; lia. Qed.
+
+Lemma instrs_regs : forall bs, instrs (map CReg bs) = 0.
+Proof. induction bs; simpl; auto. Qed.
+
+Lemma instrs_cpts : forall l, instrs (cpts l) = 2 * len l.
+Proof.
+  induction l as [|p l IH]; [reflexivity|].
+  unfold cpts in *. cbn [flat_map app instrs]. rewrite IH, len_cons. lia.
+Qed.
+
+Lemma instrs_parts : forall parts,
+  instrs (flat_map (fun x => CReg (fst x) :: CInstr None :: cpts (snd x)) parts) = hdr_n parts.
+Proof.
+  induction parts as [|x ps IH]; [reflexivity|].
+  cbn [flat_map app instrs hdr_n]. rewrite instrs_app, instrs_cpts, IH. lia.
+Qed.
+
+Lemma hdr_n_nonneg : forall parts, 0 <= hdr_n parts.
+Proof. induction parts as [|x ps IH]; cbn [hdr_n]; unfold len in *; lia. Qed.
+
+Lemma ninstr_nonneg : forall its, 0 <= ninstr its.
+Proof.
+  induction its; cbn [ninstr]; try lia.
+  - pose proof (hdr_n_nonneg parts). lia.
+  - unfold len. lia.
+Qed.
+
+Lemma instrs_compile : forall its, instrs (compile its) = ninstr its.
+Proof.
+  induction its as [|bs r IHr|q r IHr|r IHr|b IHb r IHr|parts late b IHb r IHr|b IHb c r IHr];
+    cbn [compile ninstr instrs]; rewrite ?instrs_app; cbn [instrs];
+    rewrite ?instrs_app, ?instrs_regs, ?instrs_cpts, ?instrs_parts; cbn [instrs];
+    rewrite ?instrs_app, ?instrs_regs; cbn [instrs]; rewrite ?instrs_app; cbn [instrs]; try lia.
+Qed.
+
+Lemma point_pc_app : forall a b pc p,
+  point_pc (a ++ b) pc p =
+  match point_pc a pc p with Some q => Some q | None => point_pc b (pc + instrs a) p end.
+Proof.
+  induction a as [|e a IH]; intros b pc p.
+  - simpl. rewrite Z.add_0_r. reflexivity.
+  - destruct e as [[q|]| | | |]; cbn [app point_pc instrs]; try (rewrite IH; reflexivity).
+    + destruct (q =? p); [reflexivity|]. rewrite IH. replace (pc + 1 + instrs a) with (pc + (1 + instrs a)) by lia. reflexivity.
+    + rewrite IH. replace (pc + 1 + instrs a) with (pc + (1 + instrs a)) by lia. reflexivity.
+Qed.
+
+Lemma point_pc_regs : forall bs pc p, point_pc (map CReg bs) pc p = None.
+Proof. induction bs; intros; simpl; auto. Qed.
+
+Lemma point_pc_cpts : forall l pc p,
+  match point_pc (cpts l) pc p with
+  | Some q => zmem p l = true /\ pc <= q < pc + 2 * len l
+  | None => zmem p l = false
+  end.
+Proof.
+  induction l as [|x l IH]; intros pc p; [reflexivity|].
+  unfold cpts in *. cbn [flat_map app point_pc]. unfold zmem in *. cbn [existsb].
+  rewrite (Z.eqb_sym p x). rewrite len_cons.
+  destruct (x =? p).
+  - split; [reflexivity|]. unfold len. lia.
+  - specialize (IH (pc + 1 + 1) p). cbn [orb].
+    destruct (point_pc (flat_map (fun p0 : Z => [CInstr None; CInstr (Some p0)]) l) (pc + 1 + 1) p).
+    + destruct IH as [H1 H2]. split; [exact H1|lia].
+    + exact IH.
+Qed.
+
+Lemma zmem_app : forall p a b, zmem p (a ++ b) = zmem p a || zmem p b.
+Proof. intros. unfold zmem. apply existsb_app. Qed.
+
+Lemma point_pc_parts : forall parts pc p,
+  match point_pc (flat_map (fun x => CReg (fst x) :: CInstr None :: cpts (snd x)) parts) pc p with
+  | Some q => zmem p (for_points parts) = true /\ pc <= q < pc + hdr_n parts
+  | None => zmem p (for_points parts) = false
+  end.
+Proof.
+  induction parts as [|x ps IH]; intros pc p; [reflexivity|].
+  unfold for_points in *. cbn [flat_map app point_pc hdr_n]. rewrite zmem_app.
+  rewrite point_pc_app. rewrite instrs_cpts.
+  pose proof (point_pc_cpts (snd x) (pc + 1) p) as Hc.
+  pose proof (hdr_n_nonneg ps).
+  destruct (point_pc (cpts (snd x)) (pc + 1) p).
+  - destruct Hc as [H1 H2]. rewrite H1. split; [reflexivity|lia].
+  - rewrite Hc. cbn [orb].
+    specialize (IH (pc + 1 + 2 * len (snd x)) p).
+    destruct (point_pc _ (pc + 1 + 2 * len (snd x)) p).
+    + destruct IH as [H1 H2]. split; [exact H1|]. unfold len in *. lia.
+    + exact IH.
+Qed.
+
+(* ---- where the entries of a statement list start and end ---- *)
+Lemma mk_ents_Forall : forall (P : entry -> Prop) bs s c r,
+  (forall n r' v, P (Entry n s c r' v)) -> Forall P (mk_ents bs s c r).
+Proof. induction bs; intros; simpl; constructor; auto. Qed.
+
+Lemma Forall_app_intro {A} (P : A -> Prop) a b : Forall P a -> Forall P b -> Forall P (a ++ b).
+Proof. intros. apply Forall_app. split; assumption. Qed.
+
+Lemma ents_starts : forall its pc r c,
+  Forall (fun e => pc <= e_start e) (ents its pc r c).
+Proof.
+  induction its as [|bs r IHr|q r IHr|r IHr|b IHb r IHr|parts late b IHb r IHr|b IHb c0 r IHr];
+    intros pc r0 c; cbn [ents]; cbv zeta.
+  - constructor.
+  - apply Forall_app_intro; [apply mk_ents_Forall; intros; cbn [e_start e_end]; lia|].
+    eapply Forall_impl; [|apply IHr]. cbn beta. intros; lia.
+  - eapply Forall_impl; [|apply IHr]. cbn beta. intros; lia.
+  - eapply Forall_impl; [|apply IHr]. cbn beta. intros; lia.
+  - pose proof (ninstr_nonneg b).
+    apply Forall_app_intro; [apply IHb|]. eapply Forall_impl; [|apply IHr]. cbn beta. intros; lia.
+  - pose proof (ninstr_nonneg b). pose proof (hdr_n_nonneg parts).
+    repeat apply Forall_app_intro.
+    + apply mk_ents_Forall; intros; cbn [e_start e_end]; lia.
+    + apply mk_ents_Forall; intros; cbn [e_start e_end]; lia.
+    + eapply Forall_impl; [|apply IHb]. cbn beta. intros; lia.
+    + eapply Forall_impl; [|apply IHr]. cbn beta. intros; lia.
+  - pose proof (ninstr_nonneg b). assert (0 <= len c0) by (unfold len; lia).
+    apply Forall_app_intro; [apply IHb|]. eapply Forall_impl; [|apply IHr]. cbn beta. intros; lia.
+Qed.
+
+Lemma ents_ends : forall its pc r c,
+  pc + ninstr its <= c -> Forall (fun e => e_end e <= c) (ents its pc r c).
+Proof.
+  induction its as [|bs r IHr|q r IHr|r IHr|b IHb r IHr|parts late b IHb r IHr|b IHb c0 r IHr];
+    intros pc r0 c Hc; cbn [ents ninstr] in *; cbv zeta.
+  - constructor.
+  - apply Forall_app_intro; [apply mk_ents_Forall; intros; cbn [e_start e_end]; lia|]. apply IHr. lia.
+  - apply IHr. lia.
+  - apply IHr. lia.
+  - pose proof (ninstr_nonneg r).
+    apply Forall_app_intro; [|apply IHr; lia].
+    eapply Forall_impl; [|apply (IHb pc r0 (pc + ninstr b)); lia]. cbn beta. intros; lia.
+  - pose proof (ninstr_nonneg r).
+    repeat apply Forall_app_intro.
+    + apply mk_ents_Forall; intros; cbn [e_start e_end]; lia.
+    + apply mk_ents_Forall; intros; cbn [e_start e_end]; lia.
+    + eapply Forall_impl; [|apply IHb; lia]. cbn beta. intros; lia.
+    + apply IHr. lia.
+  - pose proof (ninstr_nonneg r). assert (0 <= len c0) by (unfold len; lia).
+    apply Forall_app_intro; [|apply IHr; lia].
+    eapply Forall_impl; [|apply (IHb pc r0 (pc + ninstr b + 2 * len c0 + 1)); lia]. cbn beta. intros; lia.
+Qed.
+
+Lemma act_app : forall q a b, act q (a ++ b) = act q a ++ act q b.
+Proof. intros. apply filter_app. Qed.
+
+Lemma act_none_start : forall q l, Forall (fun e => q < e_start e) l -> act q l = [].
+Proof.
+  induction l as [|e l IH]; intros H; [reflexivity|]. inversion H; subst.
+  unfold act in *. simpl. unfold active at 1.
+  replace (e_start e <=? q) with false by (symmetry; apply Z.leb_gt; lia). simpl. auto.
+Qed.
+
+Lemma act_none_end : forall q l, Forall (fun e => e_end e <= q) l -> act q l = [].
+Proof.
+  induction l as [|e l IH]; intros H; [reflexivity|]. inversion H; subst.
+  unfold act in *. simpl. unfold active at 1.
+  replace (q <? e_end e) with false by (symmetry; apply Z.ltb_ge; lia). rewrite andb_false_r. auto.
+Qed.
+
+Lemma act_mk_all : forall q bs s c r, s <= q < c -> act q (mk_ents bs s c r) = mk_ents bs s c r.
+Proof.
+  induction bs as [|b bs IH]; intros s c r H; [reflexivity|].
+  unfold act in *. simpl. unfold active at 1. simpl.
+  replace (s <=? q) with true by (symmetry; apply Z.leb_le; lia).
+  replace (q <? c) with true by (symmetry; apply Z.ltb_lt; lia). simpl. f_equal. apply IH. exact H.
+Qed.
+
+Lemma bind_of_mk : forall bs s c r, map bind_of (mk_ents bs s c r) = bs.
+Proof. induction bs as [|[n v] bs IH]; intros; simpl; [reflexivity|]. unfold bind_of at 1. simpl. f_equal. apply IH. Qed.
+
+Lemma reg_of_mk : forall bs s c r, map e_reg (mk_ents bs s c r) = zseq r (List.length bs).
+Proof. induction bs as [|b bs IH]; intros; simpl; [reflexivity|]. f_equal. apply IH. Qed.
+
+(* after the last instruction of a statement list, and before its block is closed, exactly
+   the variables it declares at its own level are active, in consecutive registers *)
+Lemma act_end : forall its pc r c q,
+  pc + ninstr its <= q < c ->
+  map bind_of (act q (ents its pc r c)) = decls its /\
+  map e_reg (act q (ents its pc r c)) = zseq r (List.length (decls its)).
+Proof.
+  induction its as [|bs r IHr|q0 r IHr|r IHr|b IHb r IHr|parts late b IHb r IHr|b IHb c0 r IHr];
+    intros pc r0 c q Hq; cbn [ents ninstr decls] in *; cbv zeta.
+  - split; reflexivity.
+  - pose proof (ninstr_nonneg r).
+    rewrite act_app, act_mk_all by lia. rewrite !map_app, bind_of_mk, reg_of_mk.
+    destruct (IHr (pc + 1) (r0 + len bs) c q ltac:(lia)) as [E1 E2].
+    rewrite E1, E2. split; [reflexivity|]. rewrite app_length, zseq_app. reflexivity.
+  - apply IHr. lia.
+  - apply IHr. lia.
+  - pose proof (ninstr_nonneg r). rewrite act_app.
+    rewrite (act_none_end q (ents b pc r0 (pc + ninstr b))).
+    2:{ eapply Forall_impl; [|apply ents_ends; lia]. cbn beta. intros; lia. }
+    apply IHr. lia.
+  - pose proof (ninstr_nonneg r). pose proof (ninstr_nonneg b). pose proof (hdr_n_nonneg parts).
+    rewrite !act_app.
+    rewrite (act_none_end q (mk_ents (for_hidden parts) _ _ _)) by (apply mk_ents_Forall; intros; cbn [e_start e_end]; lia).
+    rewrite (act_none_end q (mk_ents late _ _ _)) by (apply mk_ents_Forall; intros; cbn [e_start e_end]; lia).
+    rewrite (act_none_end q (ents b _ _ _)).
+    2:{ eapply Forall_impl; [|apply ents_ends; lia]. cbn beta. intros; lia. }
+    apply IHr. lia.
+  - pose proof (ninstr_nonneg r). assert (0 <= len c0) by (unfold len; lia). rewrite act_app.
+    rewrite (act_none_end q (ents b _ _ _)).
+    2:{ eapply Forall_impl; [|apply ents_ends; lia]. cbn beta. intros; lia. }
+    apply IHr. lia.
+Qed.
+
+Lemma starts_gt : forall its pc r c q, q < pc -> act q (ents its pc r c) = [].
+Proof.
+  intros. apply act_none_start. eapply Forall_impl; [|apply ents_starts]. cbn beta. intros; lia.
+Qed.
+
+Lemma ends_le : forall its pc r c q, pc + ninstr its <= c -> c <= q -> act q (ents its pc r c) = [].
+Proof.
+  intros. apply act_none_end. eapply Forall_impl; [|apply ents_ends; assumption]. cbn beta. intros; lia.
+Qed.
+
+(* the heart: at the pc of a query point the active entries of the table are the reference
+   scope (beyond what was in scope where the statement list starts), in consecutive registers *)
+Definition found (env : list binding) (its : items) (p q pc r c : Z) : Prop :=
+  pc <= q < pc + ninstr its /\
+  exists ext, scope_at env its p = Some (env ++ ext) /\
+              map bind_of (act q (ents its pc r c)) = ext /\
+              map e_reg (act q (ents its pc r c)) = zseq r (List.length ext).
+
+Lemma scope_ents : forall its env pc r c p,
+  pc + ninstr its <= c ->
+  match point_pc (compile its) pc p with
+  | Some q => found env its p q pc r c
+  | None => scope_at env its p = None
+  end.
+Proof.
+  induction its as [|bs r IHr|q0 r IHr|r IHr|b IHb r IHr|parts late b IHb r IHr|b IHb c0 r IHr];
+    intros env pc r0 c p Hc; unfold found in *; cbn [compile ninstr] in *.
+  - reflexivity.
+  - (* local *)
+    cbn [point_pc]. rewrite point_pc_app, point_pc_regs, instrs_regs, Z.add_0_r.
+    specialize (IHr (env ++ bs) (pc + 1) (r0 + len bs) c p ltac:(lia)).
+    destruct (point_pc (compile r) (pc + 1) p) as [q|]; [|exact IHr].
+    destruct IHr as (Hq & ext & E1 & E2 & E3). split; [lia|].
+    exists (bs ++ ext). cbn [scope_at ents]. rewrite act_app, act_mk_all by lia.
+    rewrite !map_app, bind_of_mk, reg_of_mk, E2, E3.
+    split; [rewrite E1, <- app_assoc; reflexivity|]. split; [reflexivity|].
+    rewrite app_length, zseq_app. reflexivity.
+  - (* a query point *)
+    cbn [point_pc scope_at ents]. pose proof (ninstr_nonneg r).
+    destruct (q0 =? p).
+    + split; [lia|]. exists []. rewrite app_nil_r. rewrite starts_gt by lia. repeat split; reflexivity.
+    + specialize (IHr env (pc + 2) r0 c p ltac:(lia)).
+      replace (pc + 1 + 1) with (pc + 2) by lia.
+      destruct (point_pc (compile r) (pc + 2) p) as [q|]; [|exact IHr].
+      destruct IHr as (Hq & ext & E1 & E2 & E3). split; [lia|]. exists ext. auto.
+  - (* other code *)
+    cbn [point_pc scope_at ents].
+    specialize (IHr env (pc + 1) r0 c p ltac:(lia)).
+    destruct (point_pc (compile r) (pc + 1) p) as [q|]; [|exact IHr].
+    destruct IHr as (Hq & ext & E1 & E2 & E3). split; [lia|]. exists ext. auto.
+  - (* block *)
+    cbn [point_pc scope_at ents]. pose proof (ninstr_nonneg r). pose proof (ninstr_nonneg b).
+    rewrite point_pc_app, instrs_compile. cbn [point_pc].
+    specialize (IHb env pc r0 (pc + ninstr b) p ltac:(lia)).
+    destruct (point_pc (compile b) pc p) as [q|].
+    + destruct IHb as (Hq & ext & E1 & E2 & E3). split; [lia|]. exists ext.
+      rewrite E1. cbn [orelse]. rewrite act_app, (starts_gt r) by lia. rewrite app_nil_r. auto.
+    + rewrite IHb. cbn [orelse].
+      specialize (IHr env (pc + ninstr b) r0 c p ltac:(lia)).
+      destruct (point_pc (compile r) (pc + ninstr b) p) as [q|]; [|exact IHr].
+      destruct IHr as (Hq & ext & E1 & E2 & E3). split; [lia|]. exists ext.
+      rewrite act_app, (ends_le b) by lia. auto.
+  - (* for loop *)
+    cbn [point_pc scope_at ents]; cbv zeta.
+    pose proof (ninstr_nonneg r). pose proof (ninstr_nonneg b). pose proof (hdr_n_nonneg parts).
+    rewrite point_pc_app, instrs_parts.
+    pose proof (point_pc_parts parts pc p) as Hh.
+    destruct (point_pc (flat_map _ parts) pc p) as [q|].
+    + (* inside a header expression: nothing of the loop is in scope yet *)
+      destruct Hh as [Hz Hq]. rewrite Hz. split; [lia|]. exists []. rewrite app_nil_r.
+      rewrite !act_app.
+      rewrite (act_none_start q (mk_ents (for_hidden parts) _ _ _)) by (apply mk_ents_Forall; intros; cbn [e_start e_end]; lia).
+      rewrite (act_none_start q (mk_ents late _ _ _)) by (apply mk_ents_Forall; intros; cbn [e_start e_end]; lia).
+      rewrite (starts_gt b), (starts_gt r) by lia. repeat split; reflexivity.
+    + rewrite Hh. cbn [point_pc].
+      rewrite point_pc_app, point_pc_regs, instrs_regs, Z.add_0_r.
+      rewrite point_pc_app, instrs_compile. cbn [point_pc].
+      set (S := pc + hdr_n parts) in *. set (C := S + 1 + ninstr b) in *.
+      specialize (IHb (env ++ for_hidden parts ++ late) (S + 1) (r0 + len parts + len late) C p ltac:(subst C; lia)).
+      destruct (point_pc (compile b) (S + 1) p) as [q|].
+      * destruct IHb as (Hq & ext & E1 & E2 & E3). split; [subst C S; lia|].
+        exists (for_hidden parts ++ late ++ ext). rewrite E1. cbn [orelse].
+        rewrite !act_app.
+        rewrite (act_mk_all q (for_hidden parts)) by (subst C; lia).
+        rewrite (act_mk_all q late) by (subst C; lia).
+        rewrite (starts_gt r) by (subst C; lia). rewrite app_nil_r.
+        rewrite !map_app, !bind_of_mk, !reg_of_mk, E2, E3.
+        split; [rewrite <- !app_assoc; reflexivity|]. split; [reflexivity|].
+        rewrite !app_length, !zseq_app.
+        replace (Z.of_nat (List.length (for_hidden parts))) with (len parts)
+          by (unfold for_hidden, len; rewrite map_length; reflexivity).
+        replace (r0 + len parts + Z.of_nat (List.length late)) with (r0 + len parts + len late) by (unfold len; lia).
+        reflexivity.
+      * rewrite IHb. cbn [orelse].
+        replace (S + 1 + ninstr b + 1) with (C + 1) by (subst C; lia).
+        specialize (IHr env (C + 1) r0 c p ltac:(subst C S; lia)).
+        destruct (point_pc (compile r) (C + 1) p) as [q|]; [|exact IHr].
+        destruct IHr as (Hq & ext & E1 & E2 & E3). split; [subst C S; lia|]. exists ext.
+        rewrite !act_app.
+        rewrite (act_none_end q (mk_ents (for_hidden parts) _ _ _)) by (apply mk_ents_Forall; intros; cbn [e_start e_end]; lia).
+        rewrite (act_none_end q (mk_ents late _ _ _)) by (apply mk_ents_Forall; intros; cbn [e_start e_end]; lia).
+        rewrite (ends_le b) by (subst C; lia). auto.
+  - (* repeat *)
+    cbn [point_pc scope_at ents]; cbv zeta.
+    pose proof (ninstr_nonneg r). pose proof (ninstr_nonneg b). assert (0 <= len c0) by (unfold len; lia).
+    rewrite point_pc_app, instrs_compile.
+    set (C := pc + ninstr b + 2 * len c0 + 1) in *.
+    specialize (IHb env pc r0 C p ltac:(subst C; lia)).
+    destruct (point_pc (compile b) pc p) as [q|].
+    + destruct IHb as (Hq & ext & E1 & E2 & E3). split; [lia|]. exists ext.
+      rewrite E1. cbn [orelse]. rewrite act_app, (starts_gt r) by (subst C; lia). rewrite app_nil_r. auto.
+    + rewrite IHb. cbn [orelse].
+      rewrite point_pc_app, instrs_cpts.
+      pose proof (point_pc_cpts c0 (pc + ninstr b) p) as Hp.
+      destruct (point_pc (cpts c0) (pc + ninstr b) p) as [q|].
+      * (* inside the until condition: the body's own variables are still in scope *)
+        destruct Hp as [Hz Hq]. rewrite Hz. split; [lia|]. exists (decls b).
+        rewrite act_app, (starts_gt r) by (subst C; lia). rewrite app_nil_r.
+        destruct (act_end b pc r0 C q ltac:(subst C; lia)) as [E1 E2]. auto.
+      * rewrite Hp. cbn [point_pc].
+        replace (pc + ninstr b + 2 * len c0 + 1) with C by (subst C; lia).
+        specialize (IHr env C r0 c p ltac:(subst C; lia)).
+        destruct (point_pc (compile r) C p) as [q|]; [|exact IHr].
+        destruct IHr as (Hq & ext & E1 & E2 & E3). split; [subst C; lia|]. exists ext.
+        rewrite act_app, (ends_le b) by (subst C; lia). auto.
+Qed.
+
+(* ---- the table is sorted by StartPc, so LocalName's early exit loses nothing ---- *)
+Definition le_start (a b : entry) : Prop := e_start a <= e_start b.
+
+Lemma sorted_app : forall (a b : list entry),
+  StronglySorted le_start a -> StronglySorted le_start b ->
+  (forall x y, In x a -> In y b -> le_start x y) -> StronglySorted le_start (a ++ b).
+Proof.
+  induction a as [|x a IH]; intros b Ha Hb H; [exact Hb|].
+  inversion Ha; subst. simpl. constructor.
+  - apply IH; auto. intros; apply H; simpl; auto.
+  - apply Forall_app. split; [assumption|].
+    apply Forall_forall. intros y Hy. apply H; simpl; auto.
+Qed.
+
+Lemma mk_ents_sorted : forall bs s c r, StronglySorted le_start (mk_ents bs s c r).
+Proof.
+  induction bs as [|b bs IH]; intros; simpl; constructor; [apply IH|].
+  apply mk_ents_Forall. intros. unfold le_start. simpl. lia.
+Qed.
+
+Lemma ents_starts_le : forall its pc r c,
+  Forall (fun e => e_start e <= pc + ninstr its) (ents its pc r c).
+Proof.
+  induction its as [|bs r IHr|q r IHr|r IHr|b IHb r IHr|parts late b IHb r IHr|b IHb c0 r IHr];
+    intros pc r0 c; cbn [ents ninstr]; cbv zeta.
+  - constructor.
+  - pose proof (ninstr_nonneg r).
+    apply Forall_app_intro; [apply mk_ents_Forall; intros; cbn [e_start e_end]; lia|].
+    eapply Forall_impl; [|apply IHr]. cbn beta. intros; lia.
+  - eapply Forall_impl; [|apply IHr]. cbn beta. intros; lia.
+  - eapply Forall_impl; [|apply IHr]. cbn beta. intros; lia.
+  - pose proof (ninstr_nonneg r).
+    apply Forall_app_intro; [eapply Forall_impl; [|apply IHb]; cbn beta; intros; lia|].
+    eapply Forall_impl; [|apply IHr]. cbn beta. intros; lia.
+  - pose proof (ninstr_nonneg r). pose proof (ninstr_nonneg b). pose proof (hdr_n_nonneg parts).
+    repeat apply Forall_app_intro.
+    + apply mk_ents_Forall; intros; cbn [e_start e_end]; lia.
+    + apply mk_ents_Forall; intros; cbn [e_start e_end]; lia.
+    + eapply Forall_impl; [|apply IHb]. cbn beta. intros; lia.
+    + eapply Forall_impl; [|apply IHr]. cbn beta. intros; lia.
+  - pose proof (ninstr_nonneg r). assert (0 <= len c0) by (unfold len; lia).
+    apply Forall_app_intro; [eapply Forall_impl; [|apply IHb]; cbn beta; intros; lia|].
+    eapply Forall_impl; [|apply IHr]. cbn beta. intros; lia.
+Qed.
+
+Lemma between : forall (a b : list entry) m,
+  Forall (fun e => e_start e <= m) a -> Forall (fun e => m <= e_start e) b ->
+  forall x y, In x a -> In y b -> le_start x y.
+Proof.
+  intros a b m Ha Hb x y Hx Hy. rewrite Forall_forall in Ha, Hb.
+  specialize (Ha x Hx). specialize (Hb y Hy). unfold le_start. lia.
+Qed.
+
+Lemma ents_sorted : forall its pc r c, StronglySorted le_start (ents its pc r c).
+Proof.
+  induction its as [|bs r IHr|q r IHr|r IHr|b IHb r IHr|parts late b IHb r IHr|b IHb c0 r IHr];
+    intros pc r0 c; cbn [ents]; cbv zeta.
+  - constructor.
+  - apply sorted_app; [apply mk_ents_sorted|apply IHr|].
+    apply (between _ _ (pc + 1)); [apply mk_ents_Forall; intros; cbn [e_start e_end]; lia|apply ents_starts].
+  - apply IHr.
+  - apply IHr.
+  - apply sorted_app; [apply IHb|apply IHr|].
+    apply (between _ _ (pc + ninstr b)); [apply ents_starts_le|apply ents_starts].
+  - pose proof (ninstr_nonneg b).
+    set (S := pc + hdr_n parts). set (C := S + 1 + ninstr b).
+    apply sorted_app; [apply mk_ents_sorted| |].
+    + apply sorted_app; [apply mk_ents_sorted| |].
+      * apply sorted_app; [apply IHb|apply IHr|].
+        apply (between _ _ C); [apply ents_starts_le|].
+        eapply Forall_impl; [|apply ents_starts]. cbn beta. intros; lia.
+      * apply (between _ _ (S + 1)); [apply mk_ents_Forall; intros; cbn [e_start e_end]; lia|].
+        apply Forall_app_intro; [apply ents_starts|].
+        eapply Forall_impl; [|apply ents_starts]. cbn beta. intros; subst C; lia.
+    + apply (between _ _ S); [apply mk_ents_Forall; intros; cbn [e_start e_end]; lia|].
+      repeat apply Forall_app_intro.
+      * apply mk_ents_Forall; intros; cbn [e_start e_end]; lia.
+      * eapply Forall_impl; [|apply ents_starts]. cbn beta. intros; lia.
+      * eapply Forall_impl; [|apply ents_starts]. cbn beta. intros; subst C; lia.
+  - assert (0 <= len c0) by (unfold len; lia).
+    apply sorted_app; [apply IHb|apply IHr|].
+    apply (between _ _ (pc + ninstr b)); [apply ents_starts_le|].
+    eapply Forall_impl; [|apply ents_starts]. cbn beta. intros; lia.
+Qed.
+
+Lemma fn_table_sorted : forall f, StronglySorted le_start (fn_table f).
+Proof.
+  intros f. unfold fn_table. apply sorted_app; [apply mk_ents_sorted|apply ents_sorted|].
+  apply (between _ _ 0); [apply mk_ents_Forall; intros; cbn [e_start e_end]; lia|apply ents_starts].
+Qed.
+
+(* function.go LocalName on a sorted table = the regno-th active entry *)
+Lemma local_name_sorted : forall t regno q,
+  StronglySorted le_start t -> 1 <= regno ->
+  local_name t regno q = nth_error (act q t) (Z.to_nat (regno - 1)).
+Proof.
+  induction t as [|e t IH]; intros regno q Hs Hr.
+  - simpl. destruct (Z.to_nat (regno - 1)); reflexivity.
+  - inversion Hs as [|? ? Hs' Hall]; subst. cbn [local_name]. unfold act. cbn [filter]. unfold active at 1.
+    destruct (Z.leb_spec (e_start e) q) as [Hle|Hgt].
+    + destruct (Z.ltb_spec q (e_end e)) as [Hlt|Hge]; cbn [andb].
+      * destruct (Z.eqb_spec (regno - 1) 0) as [E|N].
+        -- rewrite E. reflexivity.
+        -- rewrite IH by (auto; lia).
+           replace (Z.to_nat (regno - 1)) with (S (Z.to_nat (regno - 1 - 1))) by lia. reflexivity.
+      * apply IH; auto.
+    + cbn [andb]. fold (act q t). rewrite act_none_start.
+      * destruct (Z.to_nat (regno - 1)); reflexivity.
+      * eapply Forall_impl; [|exact Hall]. unfold le_start. cbn beta. intros; lia.
+Qed.
+
+(* state.go GetLocal reads register no-1: with the active entries in registers 0,1,2,... that
+   is the value of the no-th of them *)
+Lemma reg_val_act : forall t r q,
+  reg_val t r q = match find (fun e => e_reg e =? r) (act q t) with Some e => e_val e | None => None end.
+Proof.
+  induction t as [|e t IH]; intros r q; [reflexivity|].
+  cbn [reg_val]. unfold act. cbn [filter]. fold (active q e).
+  destruct (active q e) eqn:A.
+  - rewrite ?A. cbn [andb find].
+    destruct (e_reg e =? r); [reflexivity|]. apply IH.
+  - rewrite ?A. cbn [andb]. apply IH.
+Qed.
+
+Lemma find_zseq : forall (l : list entry) a k,
+  map e_reg l = zseq a (List.length l) -> (k < List.length l)%nat ->
+  find (fun e => e_reg e =? a + Z.of_nat k) l = nth_error l k.
+Proof.
+  induction l as [|e l IH]; intros a k Hm Hk; [simpl in Hk; lia|].
+  cbn [map List.length zseq] in Hm. injection Hm as He Hl. subst a. cbn [find].
+  destruct k as [|k].
+  - replace (e_reg e + Z.of_nat 0) with (e_reg e) by lia. rewrite Z.eqb_refl. reflexivity.
+  - replace (e_reg e =? e_reg e + Z.of_nat (S k)) with false by (symmetry; apply Z.eqb_neq; lia).
+    cbn [nth_error]. rewrite <- (IH (e_reg e + 1) k); [|exact Hl|simpl in Hk; lia].
+    replace (e_reg e + 1 + Z.of_nat k) with (e_reg e + Z.of_nat (S k)) by lia. reflexivity.
+Qed.
+
+Definition regs_ok (q : Z) (t : list entry) : Prop :=
+  map e_reg (act q t) = zseq 0 (List.length (act q t)).
+
+Lemma getlocal_impl_nth : forall t q no,
+  StronglySorted le_start t -> regs_ok q t -> 1 <= no ->
+  getlocal_impl t q no = option_map bind_of (nth_error (act q t) (Z.to_nat (no - 1))).
+Proof.
+  intros t q no Hs Hr Hno. unfold getlocal_impl. rewrite local_name_sorted by assumption.
+  destruct (nth_error (act q t) (Z.to_nat (no - 1))) as [e|] eqn:E; [|reflexivity].
+  cbn [option_map]. unfold bind_of. f_equal. f_equal.
+  rewrite reg_val_act.
+  assert (Hk : (Z.to_nat (no - 1) < List.length (act q t))%nat) by (apply nth_error_Some; congruence).
+  pose proof (find_zseq (act q t) 0 (Z.to_nat (no - 1)) Hr Hk) as F.
+  replace (0 + Z.of_nat (Z.to_nat (no - 1))) with (no - 1) in F by lia.
+  rewrite F, E. reflexivity.
+Qed.
+
+Lemma skipn_nth_cons {A} (l : list A) k x : nth_error l k = Some x -> skipn k l = x :: skipn (S k) l.
+Proof.
+  revert k; induction l as [|y l IH]; intros [|k] H; simpl in *; try discriminate.
+  - congruence.
+  - apply IH. exact H.
+Qed.
+
+Lemma enum_locals_spec : forall fuel t q k,
+  StronglySorted le_start t -> regs_ok q t ->
+  (List.length (act q t) - k < fuel)%nat ->
+  enum_locals t q (Z.of_nat k + 1) fuel = map bind_of (skipn k (act q t)).
+Proof.
+  induction fuel as [|fuel IH]; intros t q k Hs Hr Hf; [lia|].
+  cbn [enum_locals]. rewrite getlocal_impl_nth by (auto; lia).
+  replace (Z.to_nat (Z.of_nat k + 1 - 1)) with k by lia.
+  destruct (nth_error (act q t) k) as [e|] eqn:E; cbn [option_map].
+  - rewrite (skipn_nth_cons _ _ _ E). cbn [map]. f_equal.
+    replace (Z.of_nat k + 1 + 1) with (Z.of_nat (S k) + 1) by lia.
+    apply IH; auto.
+    assert ((k < List.length (act q t))%nat) by (apply nth_error_Some; congruence). lia.
+  - apply nth_error_None in E. rewrite skipn_all2 by exact E. reflexivity.
+Qed.
+
+Lemma filter_length_le {A} (f : A -> bool) l : (List.length (filter f l) <= List.length l)%nat.
+Proof. induction l as [|x l IH]; simpl; [lia|]. destruct (f x); simpl; lia. Qed.
+
+(* ================= the refinement ================= *)
+
+(* What debug.getlocal enumerates through gopher-lua's DbgLocals table (RegisterLocalVar /
+   StartLocalVarsHere / EndScope at compile time, LocalName and register LocalBase+no-1 at run
+   time) is exactly the reference scope of Lua 5.1, names and values, at every query point of
+   every function body of the modelled language. *)
+Theorem dbglocals_refines_scope_lemma : forall f p, dbg_locals_at f p = locals_at f p.
+Proof.
+  intros f p. unfold dbg_locals_at, locals_at. rewrite dbg_table_eq.
+  unfold compile_fn. rewrite point_pc_app, point_pc_regs, instrs_regs, Z.add_0_r.
+  rewrite point_pc_app.
+  pose proof (scope_ents (f_body f) (fn_env0 f) 0 (len (fn_env0 f)) (fn_close f) p) as H.
+  unfold fn_close in H at 1. specialize (H ltac:(lia)).
+  destruct (point_pc (compile (f_body f)) 0 p) as [q|].
+  - destruct H as (Hq & ext & E1 & E2 & E3). rewrite E1. f_equal.
+    assert (Hact : act q (fn_table f) = mk_ents (fn_env0 f) 0 (fn_close f) 0 ++
+                   act q (ents (f_body f) 0 (len (fn_env0 f)) (fn_close f))).
+    { unfold fn_table. rewrite act_app, act_mk_all; [reflexivity|]. unfold fn_close. lia. }
+    assert (Hregs : regs_ok q (fn_table f)).
+    { unfold regs_ok. rewrite Hact, map_app, reg_of_mk, E3, app_length, mk_ents_length.
+      rewrite zseq_app. rewrite <- E2, !map_length. reflexivity. }
+    replace 1 with (Z.of_nat 0 + 1) by lia.
+    rewrite enum_locals_spec.
+    + cbn [skipn]. rewrite Hact, map_app, bind_of_mk, E2. reflexivity.
+    + apply fn_table_sorted.
+    + exact Hregs.
+    + pose proof (filter_length_le (active q) (fn_table f)). unfold act. lia.
+  - cbn [point_pc]. symmetry. exact H.
+Qed.
+
+(* ---- the bookkeeping before the fix: witness C17-1 ---- *)
+Definition c17_1_witness : fn :=
+  Fn false [] false
+     (ILocal [("a"%string, Some 1)]
+        (IBlock (ILocal [("c"%string, Some 3)] INil)
+           (ILocal [("d"%string, Some 4)] (IPoint 1 INil)))).
+
+(* local a=1; do local c=3 end; local d=4; return debug.getlocal(1,2): the old EndScope +
+   LocalName named the dead variable c as local number 2 (and the run-time read register 1,
+   which by then holds d's 4: the observed answer "c", 4); the reference answer is d *)
+Lemma dbglocals_old_refuted_lemma :
+  exists f p pc,
+    point_pc (compile_fn f) 0 p = Some pc /\
+    option_map e_name (local_name_old (dbg_table_old f) 2 pc) = Some "c"%string /\
+    option_map (fun env => getlocal env 2) (locals_at f p) = Some (Some ("d"%string, Some 4)).
+Proof. exists c17_1_witness, 1, 4. vm_compute. repeat split; reflexivity. Qed.
